@@ -370,6 +370,7 @@ def _salience(P, R):
                         grp = k[2]
             if "i32" not in c.res_args and "i64" not in c.res_args:
                 R.violate("e", "salience-type", "salience is parsed as %s, not a signed integer" % c.res_args[-30:], es, c.line)
+    _salience_range(P, R, es)
     if grp is None:
         R.undecide("e", "salience-group", "capture group feeding parse::<i32> not identified", es)
         return
@@ -379,6 +380,90 @@ def _salience(P, R):
         R.hold("e", "salience capture %r admits a leading `-`" % pat, fn=es)
     else:
         R.violate("e", "salience-sign", "the salience capture group of %r cannot start with `-`: a negative salience is not matched and the rule silently gets salience 0" % pat, es)
+
+
+def _const_int(sym):
+    s = strip(sym)
+    if s[0] == "const" and isinstance(s[2], int) and not isinstance(s[2], bool):
+        return s[2]
+    if s[0] == "cast":
+        return _const_int(s[1] if isinstance(s[1], tuple) else s[-1])
+    if s[0] == "call" and s[2] and s[1].rsplit("::", 1)[-1] in ("unsigned_abs", "abs"):
+        v = _const_int(s[2][0])
+        return None if v is None else abs(v)
+    if s[0] == "un" and s[1] == "Neg":
+        v = _const_int(s[2])
+        return None if v is None else -v
+    return None
+
+
+def _salience_range(P, R, es):
+    """Every i32 written after `salience` is accepted: the text is parsed as i32 directly, or parsed wider and narrowed by an
+    exact conversion (try_from), or narrowed by `as i32` under guards whose accepted interval is exactly [i32::MIN, i32::MAX]."""
+    I32 = (-2 ** 31, 2 ** 31 - 1)
+    parses = [c for c in es.calls() if c.bb in es.normal_blocks() and (c.name.endswith("str>::parse") or c.name.endswith("::parse"))]
+    if not parses:
+        return
+    c = parses[0]
+    ty = c.res_args or ""
+    if "i32" in ty and "i64" not in ty:
+        R.hold("e", "salience text is parsed as i32 directly (every i32 is accepted, nothing else)", fn=es, line=c.line)
+        return
+    if any(x.name.endswith(("TryFrom>::try_from", "TryInto>::try_into", "::try_from", "::try_into")) for x in es.calls() if x.bb in es.normal_blocks()):
+        R.hold("e", "salience is parsed wider and narrowed with an exact conversion (try_from)", fn=es)
+        return
+    # `as i32` casts of the parsed value
+    casts = []
+    for bb in sorted(es.normal_blocks()):
+        for st in es.stmts(bb):
+            if isinstance(st, list) and len(st) > 4 and st[2] == "=" and st[4][0] == "cast" and "i32" in str(st[4]):
+                src = es.sym_rvalue(st[4])
+                if any(x[0] == "call" and x[3] == c.bb for x in walk(src)):
+                    casts.append((bb, st))
+    if not casts:
+        R.undecide("e", "salience-range", "salience is parsed as %s but no narrowing to i32 was recognised" % ty[-20:], es)
+        return
+    lo, hi = None, None
+    unknown = []
+    for g in A.guards_of(es, casts[0][0]):
+        if not isinstance(g["polarity"], bool):
+            continue
+        if not any(x[0] == "call" and x[3] == c.bb for x in walk(g["cond"])):
+            continue
+        cond = g["cond"] if g["polarity"] else ("un", "Not", g["cond"])
+        cc = A.canon_cmp(cond)
+        if cc is None:
+            unknown.append(fmt_sym(g["cond"], maxdepth=5))
+            continue
+        rel, a, b = cc
+        ka, kb = _const_int(a), _const_int(b)
+        sa, sb = strip(a), strip(b)
+        is_abs = lambda x: x[0] == "call" and x[1].rsplit("::", 1)[-1] in ("unsigned_abs", "abs")
+        # v REL K  /  K REL v  /  |v| REL K
+        if kb is not None and ka is None:
+            k = kb if rel == "<=" else kb - 1 if rel == "<" else None
+            if k is None:
+                unknown.append(fmt_sym(g["cond"], maxdepth=5)); continue
+            if is_abs(sa):
+                lo = max(lo, -k) if lo is not None else -k
+                hi = min(hi, k) if hi is not None else k
+            else:
+                hi = min(hi, k) if hi is not None else k
+        elif ka is not None and kb is None:
+            k = ka if rel == "<=" else ka + 1 if rel == "<" else None
+            if k is None or is_abs(sb):
+                unknown.append(fmt_sym(g["cond"], maxdepth=5)); continue
+            lo = max(lo, k) if lo is not None else k
+        else:
+            unknown.append(fmt_sym(g["cond"], maxdepth=5))
+    if unknown:
+        R.undecide("e", "salience-range", "range guards not understood: %s" % unknown[:2], es)
+    elif (lo, hi) == I32:
+        R.hold("e", "salience is parsed wider and narrowed under guards accepting exactly [i32::MIN, i32::MAX]", fn=es)
+    else:
+        R.violate("e", "salience-range:%s..%s" % (lo, hi),
+                  "extract_salience accepts saliences in [%s, %s] but an i32 salience ranges over [%d, %d]: `salience %d` (or %d) is a valid rule header that is rejected or wrapped" % (
+                      lo if lo is not None else "-inf", hi if hi is not None else "+inf", I32[0], I32[1], I32[0], I32[1]), es, casts[0][1][0])
 
 
 # ------------------------------------------------------------------------------------------------ g
